@@ -1,7 +1,3 @@
 package parsersim
 
-func modelPositions(p *Parser, c *Call, R0 *CallResult) PosOracle { return nil }
-
-func campaignC05(p *Parser, req *Request, resp *Response) { resp.Error = "c05 not built yet" }
-
 func campaignC18(p *Parser, req *Request, resp *Response) { resp.Error = "c18 not built yet" }
